@@ -49,6 +49,9 @@ class StatePolicy(decode.MachinePolicy):
                 return V(self.sym(path + '.event_register', 1))
             if attr in ('drbars', 'irbars'):
                 return V(('map', path + '.' + attr))
+        if obj[0] == 'obj' and path.startswith('new:') and cls in DATA_CLASSES:
+            # attribute of a freshly constructed holder on a path where it was never stored
+            return V(('unbound',))
         if path.startswith('reset:') and attr == 'value':
             return V(self.sym('RESET.' + cls, 32))
         if cls == 'Configurations' and attr == 'arch_version' and self.arch is not None:
